@@ -48,6 +48,8 @@ where
 
     /// Clears the current peak value.
     pub fn reset_max(&self) {
+        #[cfg(feature = "verif-hooks")]
+        crate::verif::point("m_load");
         self.max
             .store(self.used.load(Ordering::Acquire), Ordering::Release);
     }
@@ -69,15 +71,25 @@ unsafe impl GlobalAlloc for Alloc {
     unsafe fn alloc(&self, layout: Layout) -> *mut u8 {
         let size = layout.size();
         let limit = self.limit.load(Ordering::Acquire);
+        #[cfg(feature = "verif-hooks")]
+        crate::verif::point("a_add");
         let new_size = self.used.fetch_add(size, Ordering::Acquire) + size;
         if new_size <= limit {
+            #[cfg(feature = "verif-hooks")]
+            crate::verif::point("a_max");
             self.max.fetch_max(new_size, Ordering::Relaxed);
+            #[cfg(feature = "verif-hooks")]
+            crate::verif::point("a_parent");
             let result = self.parent.alloc(layout);
             if result.is_null() {
+                #[cfg(feature = "verif-hooks")]
+                crate::verif::point("a_undo");
                 self.used.fetch_sub(size, Ordering::Release);
             }
             result
         } else {
+            #[cfg(feature = "verif-hooks")]
+            crate::verif::point("a_undo");
             self.used.fetch_sub(size, Ordering::Release);
             ptr::null_mut()
         }
@@ -85,22 +97,36 @@ unsafe impl GlobalAlloc for Alloc {
 
     unsafe fn dealloc(&self, ptr: *mut u8, layout: Layout) {
         let size = layout.size();
+        #[cfg(feature = "verif-hooks")]
+        crate::verif::point("d_parent");
         self.parent.dealloc(ptr, layout);
+        #[cfg(feature = "verif-hooks")]
+        crate::verif::point("d_sub");
         self.used.fetch_sub(size, Ordering::Release);
     }
 
     unsafe fn alloc_zeroed(&self, layout: Layout) -> *mut u8 {
         let size = layout.size();
         let limit = self.limit.load(Ordering::Acquire);
+        #[cfg(feature = "verif-hooks")]
+        crate::verif::point("a_add");
         let new_size = self.used.fetch_add(size, Ordering::Acquire) + size;
         if new_size <= limit {
+            #[cfg(feature = "verif-hooks")]
+            crate::verif::point("a_max");
             self.max.fetch_max(new_size, Ordering::Relaxed);
+            #[cfg(feature = "verif-hooks")]
+            crate::verif::point("a_parent");
             let result = self.parent.alloc_zeroed(layout);
             if result.is_null() {
+                #[cfg(feature = "verif-hooks")]
+                crate::verif::point("a_undo");
                 self.used.fetch_sub(size, Ordering::Release);
             }
             result
         } else {
+            #[cfg(feature = "verif-hooks")]
+            crate::verif::point("a_undo");
             self.used.fetch_sub(size, Ordering::Release);
             ptr::null_mut()
         }
@@ -111,17 +137,29 @@ unsafe impl GlobalAlloc for Alloc {
         let (old_size, new_size) = (old_layout.size(), new_layout.size());
 
         let limit = self.limit.load(Ordering::Acquire);
+        #[cfg(feature = "verif-hooks")]
+        crate::verif::point("r_add");
         let new_used = self.used.fetch_add(new_size, Ordering::Acquire) + new_size;
         if new_used <= limit {
+            #[cfg(feature = "verif-hooks")]
+            crate::verif::point("r_max");
             self.max.fetch_max(new_used, Ordering::Relaxed);
+            #[cfg(feature = "verif-hooks")]
+            crate::verif::point("r_parent");
             let result = self.parent.realloc(ptr, old_layout, realloc_size);
             if result.is_null() {
+                #[cfg(feature = "verif-hooks")]
+                crate::verif::point("r_undo");
                 self.used.fetch_sub(new_size, Ordering::Release);
             } else {
+                #[cfg(feature = "verif-hooks")]
+                crate::verif::point("r_subold");
                 self.used.fetch_sub(old_size, Ordering::Release);
             }
             result
         } else {
+            #[cfg(feature = "verif-hooks")]
+            crate::verif::point("r_undo");
             self.used.fetch_sub(new_size, Ordering::Release);
             ptr::null_mut()
         }
